@@ -576,6 +576,16 @@ func prop(c Case) error {
 			_, _ = cd.hexDec(hex.EncodeToString(sb))
 		}
 	}
+	// ... nor with values that have no coordinates (the ones an implementation is tempted
+	// to share): EMPTY geometries of every kind in the four layouts, with SRIDs of their own
+	for k, kind := range []string{model.Point, model.LineString, model.Polygon, model.MultiPoint, model.MultiLineString, model.MultiPolygon, model.GeometryCollection} {
+		for li, l := range []geom.Layout{geom.XY, geom.XYZ, geom.XYM, geom.XYZM} {
+			e := &model.G{Kind: kind, Layout: int(l), SRID: 7000 + 10*k + li}
+			if eb, _, err := refwkb.Encode(e, (k+li)%2 == 0, refMode); err == nil {
+				_, _ = cd.unmarshal(eb)
+			}
+		}
+	}
 	if err := sameModel("the geometry returned by Unmarshal, looked at again after later decodes", exp, dec, true); err != nil {
 		return err
 	}
